@@ -112,9 +112,22 @@ pub fn execute_range(prop: &dyn Prop, cfg: &RunCfg, known: &[Known]) -> Summary 
                 std::thread::sleep(Duration::from_millis(250));
                 for s in slots.iter() {
                     let g = s.lock().unwrap();
-                    if let (Some(t), Some(case)) = (g.started, g.case.as_ref()) {
+                    if let Some(t) = g.started {
                         if t.elapsed() > Duration::from_secs(HANG_SECS) {
-                            let v = Violation::new(&format!("{}:hang", prop_id), 0, format!("run {} did not return within {} s", g.index, HANG_SECS));
+                            // no case yet: the hang is inside the generator (server-level generators
+                            // drive the real server to draw adaptive steps); the replay regenerates
+                            let gen_case = json::obj(vec![
+                                ("engine", json::s("generator")),
+                                ("seed", J::Int(cfg.seed as i128)),
+                                ("index", J::Int(g.index as i128)),
+                                ("thorough", J::Bool(cfg.tier == Tier::Thorough)),
+                            ]);
+                            let what = if g.case.is_some() { "run" } else { "generating run" };
+                            let v = Violation::new(&format!("{}:hang", prop_id), 0, format!("{} {} did not return within {} s", what, g.index, HANG_SECS));
+                            let case: &J = match g.case.as_ref() {
+                                Some(c) => c,
+                                None => &gen_case,
+                            };
                             let path = write_replay(&cfg.verif_dir, prop_id, cfg.seed, g.index, case, &v, None);
                             println!("VIOLATION property={} replay={}", prop_id, path);
                             println!("  class={} detail={}", v.class, v.detail);
@@ -160,6 +173,12 @@ pub fn execute_range(prop: &dyn Prop, cfg: &RunCfg, known: &[Known]) -> Summary 
                         }
                         let seed = run_seed(cfg.seed, prop_id, index);
                         let mut rng = Rng::new(seed);
+                        {
+                            let mut g = slots[t].lock().unwrap();
+                            g.started = Some(Instant::now());
+                            g.index = index;
+                            g.case = None;
+                        }
                         let case = Arc::new(prop.gen(&mut rng, cfg.tier, index));
                         {
                             let mut g = slots[t].lock().unwrap();
@@ -336,6 +355,18 @@ pub fn replay_file(prop_lookup: &dyn Fn(&str) -> Option<Box<dyn Prop>>, path: &s
     let case = j.req("case")?;
     let expected = j.get("signature").and_then(|x| x.str()).map(|x| x.to_string());
     let mut st = Stats::default();
+    let regenerated;
+    let case = if case.get("engine").and_then(|x| x.str()) == Some("generator") {
+        // recorded when the generator itself did not return: regenerate from (seed, index)
+        let seed = case.get("seed").and_then(|x| x.int()).ok_or("generator case: seed")? as u64;
+        let index = case.get("index").and_then(|x| x.int()).ok_or("generator case: index")? as u64;
+        let tier = if case.get("thorough").and_then(|x| x.bool()).unwrap_or(false) { Tier::Thorough } else { Tier::Quick };
+        let mut rng = Rng::new(run_seed(seed, &pid, index));
+        regenerated = prop.gen(&mut rng, tier, index);
+        &regenerated
+    } else {
+        case
+    };
     let out = prop.exec(case, &mut st)?;
     Ok((pid, out.violation, expected))
 }
